@@ -61,7 +61,15 @@ def main():
             write()
             try:
                 args = [KillOnUnpickle(i) if mode == "unpickle-args" else i for i in range(n)]
-                out = p(delayed(task)(i, args[i], mode) for i in range(n))
+                if "n_jobs" in call:
+                    # a fresh Parallel object per call; the same worker environment for every n_jobs (inner_max_num_threads
+                    # fixed), so that the loky executor is re-used and *resized* at the start of the call
+                    from joblib import parallel_config
+                    with parallel_config(backend="loky", inner_max_num_threads=1):
+                        p = Parallel(n_jobs=call["n_jobs"], return_as=spec.get("return_as", "list"))
+                        out = p(delayed(task)(i, args[i], mode) for i in range(n))
+                else:
+                    out = p(delayed(task)(i, args[i], mode) for i in range(n))
                 out = list(out)
                 rec["result"] = out
                 rec["ok"] = out == [i * i for i in range(n)]
